@@ -643,6 +643,42 @@ def list_builtin(ex, fr, c, args, dty):
                 for k in range(n - 2, -1, -1):
                     r = T.ite(T.eq(i, k), v.items[k].t, r)
                 return ex.ctx.ref_to(IntV(r, v.items[0].ty))
+    m = re.match(r"^<(?:std::vec::|alloc::vec::)?Vec<(.*)> as (?:std::ops::|core::ops::)?Index<(?:std::ops::|core::ops::)?RangeFull>>::index$", c) or \
+        re.match(r"^<\[(.*)\] as (?:std::ops::|core::ops::)?Index<(?:std::ops::|core::ops::)?RangeFull>>::index$", c)
+    if m and isinstance(args[0], RefV) and isinstance(deref(ex, args[0]), ListV):
+        return args[0]
+    m = re.match(r"^<&(?:'\w+ )?\[(.*)\] as (?:std::iter::|core::iter::)?IntoIterator>::into_iter$|^<&(?:'\w+ )?(?:std::vec::)?Vec<(.*)> as (?:std::iter::|core::iter::)?IntoIterator>::into_iter$", c)
+    if m and isinstance(deref(ex, args[0]), ListV):
+        return AggV((deref(ex, args[0]), IntV(0, "usize")), "ListIterRef")
+    # owning / borrowing iteration over a concrete-length list
+    m = re.match(r"^<(?:std::vec::|alloc::vec::)?Vec<(.*)> as (?:std::iter::|core::iter::)?IntoIterator>::into_iter$", c)
+    if m and isinstance(deref(ex, args[0]), ListV):
+        return AggV((deref(ex, args[0]), IntV(0, "usize")), "ListIter")
+    m = re.match(r"^core::slice::<impl \[(.*)\]>::iter$", c)
+    if m and isinstance(deref(ex, args[0]), ListV):
+        return AggV((deref(ex, args[0]), IntV(0, "usize")), "ListIterRef")
+    m = re.match(r"^<(?:std::vec::|alloc::vec::)?IntoIter<(.*)> as (?:std::iter::|core::iter::)?IntoIterator>::into_iter$|^<(?:std::slice::|core::slice::)?Iter<'_, (.*)> as (?:std::iter::|core::iter::)?IntoIterator>::into_iter$", c)
+    if m and isinstance(deref(ex, args[0]), AggV) and deref(ex, args[0]).ty.startswith("ListIter"):
+        return args[0]
+    m = re.match(r"^<(?:std::vec::|alloc::vec::)?IntoIter<(.*)> as (?:std::iter::|core::iter::)?Iterator>::next$|^<(?:std::slice::|core::slice::)?Iter<'_, (.*)> as (?:std::iter::|core::iter::)?Iterator>::next$", c)
+    if m and isinstance(args[0], RefV):
+        it = deref(ex, args[0])
+        if isinstance(it, AggV) and it.ty.startswith("ListIter"):
+            lst, pos = it.fields
+            if pos.t < len(lst.items):
+                _wr(ex, args[0], AggV((lst, IntV(pos.t + 1, "usize")), it.ty))
+                item = lst.items[pos.t]
+                return mk_option(True, ex.ctx.ref_to(item) if it.ty == "ListIterRef" else item, dty)
+            return mk_option(False, None, dty)
+    m = re.match(r"^<(?:std::slice::|core::slice::)?Iter<'_, (.*)> as (?:std::iter::|core::iter::)?Iterator>::fold(::<.*)?$", c)
+    if m:
+        it = deref(ex, args[0])
+        if isinstance(it, AggV) and it.ty.startswith("ListIter"):
+            lst, pos = it.fields
+            acc = args[1]
+            for item in lst.items[pos.t:]:
+                acc = ex.call_value(fr, args[2], [acc, ex.ctx.ref_to(item) if it.ty == "ListIterRef" else item], "")
+            return acc
     # Range<int>
     m = re.match(r"^<(?:std::ops::|core::ops::)?Range<(\w+)> as (?:std::iter::|core::iter::)?IntoIterator>::into_iter$", c)
     if m:
